@@ -204,6 +204,50 @@ def handleComb (j : Json) : Except String Json := do
       (Comb.jthPrefix (← getNat j "q") (← getAvail j) (← getNat j "first_n") (← getNat j "j"))
   | _ => throw s!"unknown comb method {m}"
 
+def parsedJson (p : Text.Parsed) : Json :=
+  Json.mkObj [("clauses", jCnf p.clauses), ("sampling", jInts p.sampling), ("nvars", toJson p.nvars)]
+
+def handleText (j : Json) : Except String Json := do
+  let m ← getStr j "m"
+  match m with
+  | "dimacs" =>
+    let vals ← parseCnf j "vals"; let nv ← getNat j "nv"
+    let ls := Text.dimacsLines vals nv
+    return Json.mkObj [("ok", Json.mkObj [("text", toJson (Text.render ls)),
+      ("tok_ok", toJson (decide (Text.tokenize (Text.render ls) = ls)))])]
+  | "unigen" =>
+    let vals ← parseCnf j "vals"; let nv ← getNat j "nv"; let sup ← getNat j "support"
+    let ls := Text.unigenLines vals nv (Text.rangeSupport sup)
+    return Json.mkObj [("ok", Json.mkObj [("text", toJson (Text.render ls)),
+      ("tok_ok", toJson (decide (Text.tokenize (Text.render ls) = ls))),
+      ("distinct", toJson (Text.distinctVars vals).length)])]
+  | "parse_cnf" =>
+    return exceptJson parsedJson (Text.parseCnfFile (Text.tokenize (← getStr j "text")))
+  | "parse_pycrypto" =>
+    return exceptJson (fun (r : List Clause × Int) => Json.mkObj [("clauses", jCnf r.1), ("nvars", toJson r.2)])
+      (Text.parsePycrypto (Text.tokenize (← getStr j "text")))
+  | "parse_solve" =>
+    return exceptJson jInts (Text.parseSolveOutput (Text.tokenize (← getStr j "text")))
+  | "solve_output" =>
+    return Json.mkObj [("ok", toJson (Text.render (Text.solveOutputLines (← getInts j "model"))))]
+  | "build_solution" =>
+    return exceptJson (fun (r : List Int × Int) => Json.arr #[jInts r.1, toJson r.2])
+      (Text.buildSolution (Text.tokenizeLine (← getStr j "line")))
+  | "update_file" =>
+    let ls := Text.stripLines (Text.tokenize (← getStr j "text"))
+    return exceptJson (fun (r : List Text.Line) => toJson (Text.render r)) (Text.updateFile ls (← getInts j "sol"))
+  | "opb" =>
+    let vals ← parseCnf j "vals"; let reqs ← parseRequests j "reqs"
+    return Json.mkObj [("ok", toJson (Text.opbText vals reqs))]
+  | "opb_block" =>
+    return Json.mkObj [("ok", toJson (Text.opbBlockText (← getInts j "sol")))]
+  | "opb_eval" =>
+    let vals ← parseCnf j "vals"; let reqs ← parseRequests j "reqs"
+    let tru ← getNats j "true"
+    let τ : Assign := fun v => tru.contains v
+    return Json.mkObj [("ok", toJson ((Text.opbExport vals reqs).all (fun r => r.holds τ)))]
+  | _ => throw s!"unknown text method {m}"
+
 def handle (j : Json) : Except String Json := do
   let op ← getStr j "op"
   match op with
@@ -211,6 +255,7 @@ def handle (j : Json) : Except String Json := do
   | "combine" => handleCombine j
   | "logic" => handleLogic j
   | "comb" => handleComb j
+  | "text" => handleText j
   | _ => throw s!"unknown op {op}"
 
 partial def loop (h : IO.FS.Stream) (out : IO.FS.Stream) : IO Unit := do
